@@ -229,12 +229,22 @@ func PersistScope(v *vrt.Ctx) {
 
 	store := c10.Open(v, ctx, which)
 	last := types[v.Choice("handle-last-used-for", len(types))]
+	// the persister exists before or after the application last touched the
+	// handle (an engine builds its persister first and runs application code
+	// between load and save)
+	early := v.Choice("persister-made-first", 2) == 1
 	if v.Choice("direction", 2) == 0 {
+		st, ca := state.NewState(4), cache.NewCache()
+		var pe *persist.Persister
+		if early {
+			pe = persist.NewPersister(store).WithContent(st, ca)
+		}
 		store.SetPrefix(db.DATATYPE_USERDATA)
 		v.Assume(store.Put(ctx, []byte(name), blob) == nil)
 		store.SetPrefix(last)
-		st, ca := state.NewState(4), cache.NewCache()
-		pe := persist.NewPersister(store).WithContent(st, ca)
+		if !early {
+			pe = persist.NewPersister(store).WithContent(st, ca)
+		}
 		lerr := pe.Load(name)
 		v.Assert(lerr != nil, "C11/user-data-is-not-loaded-as-session-state")
 		v.Assert(len(pe.GetState().ExecPath) == 0, "C11/user-data-is-not-loaded-as-session-state")
@@ -244,8 +254,15 @@ func PersistScope(v *vrt.Ctx) {
 	st, ca := state.NewState(4), cache.NewCache()
 	st.Down("root")
 	ca.Push()
+	var pe *persist.Persister
+	if early {
+		pe = persist.NewPersister(store).WithContent(st, ca)
+	}
 	store.SetPrefix(last)
-	v.Assume(persist.NewPersister(store).WithContent(st, ca).Save(name) == nil)
+	if !early {
+		pe = persist.NewPersister(store).WithContent(st, ca)
+	}
+	v.Assume(pe.Save(name) == nil)
 	store.SetPrefix(db.DATATYPE_USERDATA)
 	_, gerr := store.Get(ctx, []byte(name))
 	v.Assert(gerr != nil, "C11/session-state-is-not-returned-as-user-data")
@@ -255,9 +272,44 @@ func PersistScope(v *vrt.Ctx) {
 	v.Cover("C11/persist-scope-save")
 }
 
+// OwnRecord: a record is written under one (type, session, key) and another
+// under a second one, arbitrary bytes in both names. Reading the second then
+// returns what was written under the second - whatever else the store holds,
+// a session that has a record of its own gets that one. (No input class is
+// exempt here: where two names fall together the second write replaced the
+// first, and the fallbacks of finding F9 only apply when a session has no
+// record of its own.)
+func OwnRecord(v *vrt.Ctx) {
+	which := v.Param("backend")
+	maxlen := v.Param("maxlen")
+	ctx := context.Background()
+	store := c10.Open(v, ctx, which)
+	t1 := types[v.Choice("type-one", len(types))]
+	t2 := types[v.Choice("type-two", len(types))]
+	s1 := v.Str("session-one", v.Choice("sessionlen-one", maxlen+1))
+	s2 := v.Str("session-two", v.Choice("sessionlen-two", maxlen+1))
+	k1 := v.Str("key-one", 1+v.Choice("keylen-one", maxlen))
+	k2 := v.Str("key-two", 1+v.Choice("keylen-two", maxlen))
+	for _, t := range []uint8{t1, t2} {
+		if t&sessioned == 0 {
+			store.SetLock(t, false)
+		}
+	}
+	store.SetPrefix(t1)
+	store.SetSession(s1)
+	v.Assume(store.Put(ctx, []byte(k1), []byte("A")) == nil)
+	store.SetPrefix(t2)
+	store.SetSession(s2)
+	v.Assume(store.Put(ctx, []byte(k2), []byte("B")) == nil)
+	got, err := store.Get(ctx, []byte(k2))
+	v.Assert(err == nil && string(got) == "B", "C11/own-record-is-the-one-returned")
+	v.Cover("C11/own-record")
+}
+
 var Harnesses = map[string]func(*vrt.Ctx){
+	"OwnRecord":    OwnRecord,
 	"PersistScope": PersistScope,
-	"Crafted": Crafted,
-	"List":   List,
-	"Inject": Inject,
+	"Crafted":      Crafted,
+	"List":         List,
+	"Inject":       Inject,
 }
